@@ -1058,7 +1058,7 @@ const Header = `(* GENERATED by the harness (--tables) from the Go AST of the tr
    Do not edit: regenerated on every ./check run. *)
 From Coq Require Import String.
 From Coq Require Import List.
-From Verif Require Import Lts.
+From Verif Require Import Lts LtsPhase.
 Import ListNotations.
 Open Scope string_scope.
 `
